@@ -39,6 +39,9 @@ CLAIMED = {
  "C10": ("exploration", "Hypothesis layouts/values/orders vs big-integer reference codec + exhaustive narrow fields", "4 C10",
          "Generated-input search over layouts (any width/alignment/blob/order/prior content) against a big-integer reference codec, plus exhaustive enumeration of narrow fields; exploration, not proof: the wide-field space is sampled with boundary bias.",
          "reference codec in props/c10_codec.py; XOR contract (field bits zero before encoding)"),
+ "C11": ("exploration", "resource-budget oracle (traced line events <= 2000 + 400*len) over Hypothesis-mutated conformant responses, raw byte strings, exhaustive single-byte 00/FF walks and (thorough) atheris coverage-guided fuzzing per decoder", "4 C11",
+         "All 21 response/sense decoders run under a step budget linear in the buffer size, counted with sys.monitoring LINE events in pyscsi frames (not wall-clock). Inputs: conformant responses with overwritten byte runs (every embedded length/count field is hit), raw byte strings up to 4 KiB, runs of 00h/FFh, an exhaustive single-byte walk, and in the thorough tier an atheris campaign per decoder with the budget oracle inside the target.",
+         "fixed budget constants (> 5x the largest well-formed cost); READ CD's transfer length is generated consistently with the buffer (3072 bytes per sector as the facade allocates)"),
  "C12": ("exploration", "model-based stateful PBT against a simulated conformant target (independent CDB decoder) with a lock-step reference model; SG_IO vs iSCSI differential", "4 C12",
          "Generated histories of write/write-same/read/sync/capacity/inquiry facade calls over both transports against a simulated SBC target that decodes CDBs with the independent standards model and audits transport lengths; every read is compared with a reference model of the medium kept by the check; capacities up to 2^64-1 blocks.",
          "simulated target pbt/standins/target.py + stdspec; binding stand-ins; protection information not modelled; NUMBER OF LOGICAL BLOCKS=0 not generated"),
